@@ -311,6 +311,21 @@ def array_case_failures(sym, kind, nsites, st=None):
             H, _ = RF.true_matrix(herm, bases)
             if np.any(np.abs(M - M.conj().T) > 1e-9) or not np.allclose(np.linalg.eigvalsh(M), np.linalg.eigvalsh(H), atol=1e-9):
                 fails.append(("C18/shifted-hermitian/spectrum", f"{sym} {kind}: {s} - 1.3"))
+    # coefficient types: complex amplitudes in a Hermitian term set, and integers next to fractions (python and numpy)
+    for k, s in enumerate(strs[:6]):
+        sd = [(m, not d) for m, d in reversed(s)]
+        if sd == list(s):
+            continue  # self-adjoint string: its coefficient has to be real
+        c = COEFF[k % 8] * (0.8 + 0.6j)
+        herm = [(c, list(s)), (c.conjugate(), sd)]
+        M = check("complex-hermitian", herm)
+        if M is not None:
+            H, _ = RF.true_matrix(herm, bases)
+            if np.any(np.abs(M - M.conj().T) > 1e-9) or not np.allclose(np.linalg.eigvalsh(M), np.linalg.eigvalsh(H), atol=1e-9):
+                fails.append(("C18/complex-hermitian/spectrum", f"{sym} {kind}: {s} with amplitude {c}"))
+    if len(strs) >= 3:
+        for first in (1, np.int64(2), np.float32(1.5)):
+            check(f"coefficient-types[{type(first).__name__}-first]", [(first, list(strs[0])), (0.5, list(strs[1])), (-0.75, list(strs[2]))])
     # products of operator arrays (complete bases only)
     if complete:
         menu = [()] + list(strs[:: max(1, len(strs) // 6)][:6])
